@@ -19,12 +19,12 @@ Local Open Scope N_scope.
 Example c39_code_shape_tie :
   (c39_trace_AddBlock, c39_trace_AddHeader, c39_trace_AddHeaders, c39_trace_SubmitBlock, c39_trace_saveBlock, c39_trace_submitBlock,
    c39_trace_saveBlockToBlockStore, c39_trace_saveBlockToStateStore, c39_trace_saveBlockToEventStore,
-   c39_trace_verifyHeader, c39_trace_VerifyBlock, c39_trace_VerifyHeader, c39_trace_VerifyMultiSignature,
+   c39_trace_verifyHeader, c39_trace_VerifyBlock, c39_trace_VerifyHeader, c39_trace_VerifyMultiSignature, c39_trace_sigVerifyWrapper,
    c39_trace_BlockDeserialization, c39_trace_AddStateMerkleTreeRoot, c39_trace_AddBlockMerkleTreeRoot)
   =
   (model_trace_AddBlock, model_trace_AddHeader, model_trace_AddHeaders, model_trace_SubmitBlock, model_trace_saveBlock, model_trace_submitBlock,
    model_trace_saveBlockToBlockStore, model_trace_saveBlockToStateStore, model_trace_saveBlockToEventStore,
-   model_trace_verifyHeader, model_trace_VerifyBlock, model_trace_VerifyHeader, model_trace_VerifyMultiSignature,
+   model_trace_verifyHeader, model_trace_VerifyBlock, model_trace_VerifyHeader, model_trace_VerifyMultiSignature, model_trace_sigVerifyWrapper,
    model_trace_BlockDeserialization, model_trace_AddStateMerkleTreeRoot, model_trace_AddBlockMerkleTreeRoot).
 Proof. reflexivity. Qed.
 
